@@ -38,6 +38,7 @@ import (
 	"github.com/risor-io/risor/compiler"
 	"github.com/risor-io/risor/importer"
 	"github.com/risor-io/risor/object"
+	ros "github.com/risor-io/risor/os"
 	"github.com/risor-io/risor/parser"
 	"github.com/risor-io/risor/vm"
 
@@ -83,6 +84,49 @@ type session struct {
 	code    *compiler.Code     // repl: the main code
 	plan    *tickPlan          // plan of the invocation in progress
 	codes   map[string]*compiler.Code
+	// optsOnce: VM options only with the first RunCode; vmOS: the VM gets vm.WithOS(C)
+	optsOnce bool
+	vmOS     bool
+	ran      bool
+	oses     map[string]*osBox
+	ctxOS    string // the next invocation's context carries this virtual OS ("" = none)
+}
+
+// osBox is one tenant's virtual OS: own environment value, own cwd, own stdout buffer
+type osBox struct {
+	os  *ros.VirtualOS
+	out *ros.BufferFile
+}
+
+func (s *session) osFor(name string) *osBox {
+	if s.oses == nil {
+		s.oses = map[string]*osBox{}
+	}
+	if b := s.oses[name]; b != nil {
+		return b
+	}
+	out := ros.NewBufferFile(nil)
+	b := &osBox{out: out, os: ros.NewVirtualOS(context.Background(),
+		ros.WithEnvironment(map[string]string{"C07VAR": "env-of-" + name}), ros.WithCwd("/home-"+name), ros.WithStdout(out))}
+	s.oses[name] = b
+	return b
+}
+
+func (s *session) vmOpts() []vm.Option {
+	opts := s.cfg.VMOpts()
+	if s.vmOS {
+		opts = append(opts, vm.WithOS(s.osFor("C").os))
+	}
+	return opts
+}
+
+// printed names the virtual OSes whose stdout received something since mark
+func (s *session) outLens() map[string]int {
+	m := map[string]int{}
+	for n, b := range s.oses {
+		m[n] = len(b.out.Bytes())
+	}
+	return m
 }
 
 // One configuration (default globals + tick) per worker process; tick() acts on the session whose
@@ -147,7 +191,9 @@ func modbehBuiltin(_ context.Context, args ...object.Object) object.Object {
 
 func newSession(kind string) *session {
 	if sharedCfg == nil {
-		globals := map[string]any{"tick": object.NewBuiltin("tick", tickBuiltin), "modbeh": object.NewBuiltin("modbeh", modbehBuiltin)}
+		globals := map[string]any{"tick": object.NewBuiltin("tick", tickBuiltin), "modbeh": object.NewBuiltin("modbeh", modbehBuiltin),
+			// host values that scripts rebind / mutate in place (converted anew for every VM and RunCode)
+			"hq": 100, "hl": []int{1, 2, 3}, "hm": map[string]any{"n": 1}}
 		names := risor.NewConfig(risor.WithGlobals(globals)).GlobalNames()
 		files := fstest.MapFS{}
 		for name, src := range moduleFiles() {
@@ -196,6 +242,7 @@ type outcome struct {
 	SPDelta int    `json:"sp_delta"` // Call: sp after - sp before ; RunCode/Run: sp after
 	Running bool   `json:"running,omitempty"`
 	IsCall  bool   `json:"is_call,omitempty"`
+	Out     string `json:"out,omitempty"` // the virtual OSes whose stdout received output during the invocation
 	Flipped bool   `json:"flipped,omitempty"`
 	// OwnMissed: the invocation cancelled its own context but the halt flag was not seen set in time
 	// (machine overloaded, or cancellation broken altogether, which is C06's subject): not judged
@@ -252,6 +299,24 @@ func (s *session) invoke(ctx context.Context, api string, src string, sameCode b
 	}()
 	s.plan = plan
 	current = s
+	if s.vmOS {
+		s.osFor("C")
+	}
+	if s.ctxOS != "" {
+		ctx = ros.WithOS(ctx, s.osFor(s.ctxOS).os)
+		s.ctxOS = ""
+	}
+	before := s.outLens()
+	defer func() {
+		var names []string
+		for n, b := range s.oses {
+			if len(b.out.Bytes()) > before[n] {
+				names = append(names, n)
+			}
+		}
+		sort.Strings(names)
+		o.Out = strings.Join(names, ",")
+	}()
 	switch api {
 	case "RunCode":
 		var code *compiler.Code
@@ -275,7 +340,12 @@ func (s *session) invoke(ctx context.Context, api string, src string, sameCode b
 			}
 			s.machine = m
 		}
-		err := s.machine.RunCode(ctx, code, s.cfg.VMOpts()...)
+		var opts []vm.Option
+		if !s.optsOnce || !s.ran {
+			opts = s.vmOpts()
+		}
+		s.ran = true
+		err := s.machine.RunCode(ctx, code, opts...)
 		s.result(ctx, &o, err)
 		s.rest(&o, 0, false)
 	case "Run":
@@ -286,7 +356,7 @@ func (s *session) invoke(ctx context.Context, api string, src string, sameCode b
 		}
 		s.code = code
 		if s.machine == nil {
-			s.machine = vm.New(code, s.cfg.VMOpts()...)
+			s.machine = vm.New(code, s.vmOpts()...)
 		}
 		err = s.machine.Run(ctx)
 		if err != nil {
@@ -399,6 +469,7 @@ func modPlan(v *inv, p *tickPlan) {
 // reference: the same invocation on a fresh VM whose global x has the tracked value
 func reference(h *history, v *inv, x int, loaded map[string]bool) outcome {
 	ref := newSession(h.Session)
+	ref.vmOS = h.VMOS
 	bg := context.Background()
 	fn, args, _ := callOf(v)
 	expr := exprOf(v)
@@ -411,12 +482,14 @@ func reference(h *history, v *inv, x int, loaded map[string]bool) outcome {
 	modPlan(v, plan)
 	switch v.API {
 	case "RunCode":
+		ref.ctxOS = v.OS
 		return ref.invoke(ctx, "RunCode", runcodeSource(v.Inc, expr), false, "", nil, plan)
 	case "Run":
 		// whole-program semantics: the set-up (with the tracked x), the modules the session has loaded
 		// already, and the piece as ONE program
 		pre, n := preloadLines(loaded)
 		plan.skipBeh = n
+		ref.ctxOS = v.OS
 		return ref.invoke(ctx, "Run", fmt.Sprintf("x := %d\n", x)+prelude()+pre+replPiece(h, v, x), false, "", nil, plan)
 	default: // Call
 		api := "RunCode"
@@ -427,6 +500,7 @@ func reference(h *history, v *inv, x int, loaded map[string]bool) outcome {
 			o.Harness = "reference set-up failed: " + o.Err + o.Harness
 			return o
 		}
+		ref.ctxOS = v.OS
 		return ref.invoke(ctx, "Call", "", false, fn, args, plan)
 	}
 }
@@ -473,6 +547,9 @@ func compare(got, want *outcome) string {
 			return "wrong-error"
 		}
 	}
+	if got.Out != want.Out {
+		return "output-went-to-another-os"
+	}
 	if got.Running {
 		return "still-running"
 	}
@@ -517,6 +594,7 @@ func runHistory(h *history) (res hres) {
 	res.Invs = len(h.Invs)
 	bg := context.Background()
 	s := newSession(h.Session)
+	s.optsOnce, s.vmOS = h.OptsOnce, h.VMOS
 	type ctxRec struct {
 		cancel context.CancelFunc
 	}
@@ -535,6 +613,7 @@ func runHistory(h *history) (res hres) {
 	if h.Session == "repl" {
 		api0 = "Run"
 	}
+	s.ctxOS = h.SetupOS
 	o0 := s.invoke(ctx0, api0, setupSource(h.Session, setupX), false, "", nil, nil)
 	if o0.Harness != "" {
 		res.Harness = "set-up failed: " + o0.Harness
@@ -588,6 +667,7 @@ func runHistory(h *history) (res hres) {
 		}
 		st.Want = reference(h, v, x, loaded)
 		loaded = loadedAfter(v, loaded)
+		s.ctxOS = v.OS
 		switch v.API {
 		case "RunCode":
 			st.Got = s.invoke(ctx, "RunCode", runcodeSource(v.Inc, expr), v.SameCode, "", nil, plan)
@@ -615,6 +695,15 @@ func runHistory(h *history) (res hres) {
 			break
 		}
 		st.Mismatch = compare(&st.Got, &st.Want)
+		if st.Mismatch == "wrong-value" && v.Flavor == "os" {
+			st.Mismatch = "wrong-value-os-of-another-invocation"
+		}
+		if st.Mismatch == "wrong-value" && v.Flavor == "hostmut" {
+			st.Mismatch = "wrong-value-host-globals-not-reset"
+		}
+		if st.Mismatch == "unexpected-error-other" && v.Flavor == "hostmut" {
+			st.Mismatch = "unexpected-error-host-globals-not-reset"
+		}
 		steps = append(steps, st)
 		if st.Mismatch != "" {
 			preceded := behClass(prevBeh)
@@ -665,6 +754,8 @@ func worker(kind string, data json.RawMessage) any {
 	if err := json.Unmarshal(data, &c); err != nil {
 		return chunkRes{Res: []hres{{Harness: "bad case: " + err.Error()}}}
 	}
+	// what the real OS says when no virtual OS is configured anywhere (only ever read)
+	_ = os.Setenv("C07VAR", "env-of-the-worker-process")
 	var out chunkRes
 	for i := range c.Hist {
 		h := &c.Hist[i]
@@ -694,6 +785,7 @@ func worker(kind string, data json.RawMessage) any {
 func describe(h *history, r *hres) string {
 	var b strings.Builder
 	fmt.Fprintf(&b, "session %s %s (set-up: x := %d + prelude, run with its own context ctx0)\n", h.Session, h.XStyle, setupX)
+	fmt.Fprintf(&b, "VM options only with the first RunCode: %v; VM created with vm.WithOS(C): %v; virtual OS carried by the set-up's context: %q\n", h.OptsOnce, h.VMOS, h.SetupOS)
 	for _, st := range r.Steps {
 		v := st.Inv
 		fmt.Fprintf(&b, "#%d %s %s/%s", st.I, v.API, v.Beh, v.Flavor)
@@ -721,6 +813,9 @@ func describe(h *history, r *hres) string {
 		}
 		if v.Beh == "cancelled" {
 			fmt.Fprintf(&b, " own context cancelled at its tick %d", v.K)
+		}
+		if v.OS != "" {
+			fmt.Fprintf(&b, " context carries virtual OS %s", v.OS)
 		}
 		if v.Background {
 			b.WriteString(" context.Background()")
@@ -753,7 +848,7 @@ func outStr(o *outcome) string {
 	default:
 		s = "value " + o.Value
 	}
-	return fmt.Sprintf("%s  [fp=%d sp%+d running=%v]", s, o.FP, o.SPDelta, o.Running)
+	return fmt.Sprintf("%s  [fp=%d sp%+d running=%v stdout-of=%q]", s, o.FP, o.SPDelta, o.Running, o.Out)
 }
 
 func drive(d *mon.Driver, replay string) int {
